@@ -5,7 +5,7 @@
    attr = (validate item ...) | path | other
    item = (length arg ...) | (range arg ...) | (email) | (email (arg ...)) | (url) | (url (arg ...))
         | (x name) | (x name ((key lit) ...))
-   arg  = (min neg lit) | (max neg lit) | (msg lit value)
+   arg  = (min neg lit) | (max neg lit) | (equal neg lit) | (msg lit value) | (code lit)
    answer per field:
      (model tokens domain kf-flags ok-of-impl read-of-impl read-of-model ok-of-model expected) *)
 open Sexp
@@ -98,6 +98,8 @@ let arg_ s : M.arg = match s with
   | List [Atom "min"; neg; lit] -> M.AMin (M.Num (bool_ neg, str_ lit))
   | List [Atom "max"; neg; lit] -> M.AMax (M.Num (bool_ neg, str_ lit))
   | List [Atom "msg"; lit; v] -> M.AMsg (str_ lit, str_ v)
+  | List [Atom "equal"; neg; lit] -> M.AEqual (M.Num (bool_ neg, str_ lit))
+  | List [Atom "code"; lit] -> M.ACode (str_ lit)
   | _ -> failwith "c11: bad arg"
 let item_ s : M.item = match s with
   | List (Atom "length" :: args) -> M.ILength (List.map arg_ args)
